@@ -431,10 +431,16 @@ def rule_b(ctx: Context, R: Reporter, bmap: FuncInfo):
     for rn in rets:
         ok = isinstance(rn.stmt.value, ast.Name) and rn.stmt.value.id == uparam and any(cfg.dominates(c.id, rn.id) for c in copies)
         R.check("C16.b", "the mapped copy is returned", ok, bmap, rn.stmt, msg=f"{bmap.short}: returns `{unparse(rn.stmt.value)}`", key="return-copy")
-    # each loop is guarded by `<list> is not None`
+    # each fold loop runs exactly when its list is given
+    from ..util import conds_holding_at as _cha3
+
     for lp in [n for n in cfg.stmt_nodes() if n.kind == "for"]:
         if isinstance(lp.stmt.iter, ast.Name) and lp.stmt.iter.id in bmap.params[1:]:
-            pass
+            nm_ = lp.stmt.iter.id
+            bad = [(norm_text(a), p) for (t, pol) in _cha3(cfg, lp) for (a, p) in split_cond(t, pol)
+                   if (norm_text(a) == f"{nm_}isnotNone" and p is False) or (norm_text(a) == f"{nm_}isNone" and p is True)]
+            R.check("C16.b", f"the `{nm_}` fold runs when `{nm_}` is given", not bad, bmap, lp.stmt,
+                    msg=f"{bmap.short}: the loop over `{nm_}` is reachable only when `{nm_}` is None (inverted guard): designated coordinates are never folded", key=f"fold-guard:{nm_}")
 
 
 def rule_c(ctx: Context, R: Reporter, pred: FuncInfo):
@@ -510,6 +516,54 @@ def rule_c(ctx: Context, R: Reporter, pred: FuncInfo):
             R.check("C16.c", "the tested slice is the input restricted to the strict indices", uses_strict, pred, rn.stmt,
                     msg=f"{pred.short}: tested value `{unparse(rsl)[:60]}` is not {uparam}[..., strict_indices]", key=f"slice:{'1d' if 'axis' not in norm_text(v) else '2d'}")
     R.floor("C16.c", "comparison returns (1-D and 2-D paths)", n_ret, 2)
+    # rank dispatch: a full reduction (no axis) is the answer for a single point only; batches reduce over the last
+    # axis and get one flag per row; a trivially-true batch answer has one entry per row
+    from ..util import conds_holding_at as _cha2
+
+    for rn in cfg.stmt_nodes():
+        if rn.kind != "stmt" or not isinstance(rn.stmt, ast.Return) or rn.stmt.value is None:
+            continue
+        v = rs.resolve(rn.stmt.value, rn)
+        facts = [(norm_text(a), p) for (t, pol) in _cha2(cfg, rn) for (a, p) in split_cond(t, pol)]
+        one_d = any((txt.endswith(".ndim==1") and p) or (txt.endswith(".ndim!=1") and not p) or (txt.endswith(".ndim>1") and not p) or (txt.endswith(".ndim>=2") and not p) for (txt, p) in facts)
+        reds = [c for c in ast.walk(v) if isinstance(c, ast.Call) and (ctx.res.external_name(pred, c) or "") in ("numpy.all", "numpy.any", "numpy.logical_and.reduce")]
+        for c in reds:
+            ax = call_arg(c, 1, "axis")
+            axv = None
+            if ax is not None:
+                axv = const_value(ax) if not isinstance(ax, ast.UnaryOp) else (-const_value(ax.operand) if isinstance(ax.op, ast.USub) and const_value(ax.operand) is not None else None)
+            if ax is None:
+                R.check("C16.c", "a reduction over all axes answers for a single point only", one_d, pred, c,
+                        msg=f"{pred.short}: `{unparse(c)[:50]}` reduces over every axis on a path where the input may be a batch: one flag for all rows instead of one per row "
+                            f"(path facts {facts})", key=f"full-reduction-batch:{norm_text(c)[:30]}")
+            else:
+                R.check("C16.c", "batch reductions run over the coordinate (last) axis", axv in (-1, 1), pred, c,
+                        msg=f"{pred.short}: `{unparse(c)[:50]}` reduces over axis {unparse(ax)}, not over the coordinates of each point", key=f"reduction-axis:{norm_text(c)[:30]}")
+        if isinstance(v, ast.Constant) and v.value is True:
+            R.check("C16.c", "a scalar all-valid answer is given for a single point only", one_d, pred, rn.stmt,
+                    msg=f"{pred.short}: `return True` on a path where the input may be a batch (path facts {facts}): the caller indexes the answer per row", key="trivial-scalar-rank")
+        if isinstance(v, ast.Call) and (ctx.res.external_name(pred, v) or "") == "numpy.ones" and v.args:
+            R.check("C16.c", "a per-row all-valid answer is given for batches only", not one_d, pred, rn.stmt,
+                    msg=f"{pred.short}: `{unparse(v)[:40]}` is returned for a single point (u.shape[0] is then the number of coordinates)", key="trivial-batch-rank")
+            ok = norm_text(v.args[0]) in (f"{uparam}.shape[0]", f"len({uparam})", f"{uparam}.shape[:-1]")
+            R.check("C16.c", "the all-valid batch answer has one entry per row", ok, pred, v,
+                    msg=f"{pred.short}: `{unparse(v)[:50]}` does not have {uparam}.shape[0] entries", key="trivial-batch-length")
+    # the designated lists are consulted exactly when they are given
+    for nd in cfg.stmt_nodes():
+        uses = None
+        if nd.kind == "for" and isinstance(nd.stmt.iter, ast.Name) and nd.stmt.iter.id in (pper, pref):
+            uses = nd.stmt.iter.id
+        elif nd.kind == "stmt":
+            for c in ast.walk(nd.stmt):
+                if isinstance(c, ast.Call) and isinstance(c.func, ast.Attribute) and c.func.attr in ("update", "extend", "union") and c.args and isinstance(c.args[0], ast.Name) and c.args[0].id in (pper, pref):
+                    uses = c.args[0].id
+        if uses is None:
+            continue
+        bad = [(txt, p) for (t, pol) in _cha2(cfg, nd) for (a, p) in split_cond(t, pol) for txt in [norm_text(a)]
+               if (txt == f"{uses}isnotNone" and p is False) or (txt == f"{uses}isNone" and p is True)]
+        R.check("C16.c", f"`{uses}` is consulted when it is given", not bad, pred, nd.ast if nd.ast is not None else pred.node,
+                msg=f"{pred.short}: `{unparse(nd.ast)[:50] if nd.ast is not None else ''}` runs only when `{uses}` is None (inverted guard): designated coordinates are then bounds-checked "
+                    f"as strict ones and a given list is ignored", key=f"designated-guard:{uses}")
 
 
 def run(ctx: Context, R: Reporter):
